@@ -44,8 +44,16 @@ def entities(C, tier):
         longest = max(other_base, key=lambda t: len(ref.keys(t)))
         if len(ref.keys(longest)) > len(ref.keys(other_base[0])):
             out["N1"] = conc[longest]
+            # a node file whose node is spelled like an extension: its Sid parent string is also a (leaf) cache file
+            n1 = conc[longest].split("/")
+            ext = n1[-1]
+            nc = n1[:-2] + [ext, ext]
+            sc = n1[:-2] + [ext]
+            if ref.natural("/".join(nc))[0] == longest and ref.natural("/".join(sc))[0] and ref.is_leaf_type(ref.natural("/".join(sc))[0]):
+                out["NC"] = "/".join(nc)
+                out["SC"] = "/".join(sc)
     if tier != "thorough":
-        for k in ("D1", "A2", "F3"):
+        for k in ("D1", "A2", "F3", "F2"):
             out.pop(k, None)
     return out
 
